@@ -154,6 +154,16 @@ struct Env {
       T y = (k % 3 == 0) ? (T)((x + 1) % modp<T>(cm)) : (k % 3 == 1) ? (T)((x + modp<T>(cm) - 1) % modp<T>(cm)) : bump(cm, x);
       set(t, cm, i, y); run("diff1");
     }
+    // differ in exactly one BIT of one residue, every bit position (a comparison or reduction that looks only at part
+    // of the word - low half, high half, one byte - is blind to some of these)
+    for (int b = 0; b < (int)(8 * sizeof(T)) - 2; b++) {
+      base(b % 3); set_val(t, target);
+      size_t k = (size_t)(b * 7 + 3) % N, cm = k / D, i = k % D;
+      T x = at(t, cm, i);
+      T y = (T)(x ^ ((T)1 << b));
+      if (y >= modp<T>(cm)) continue;
+      set(t, cm, i, y); run("diffbit");
+    }
     // equal in exactly one residue
     for (size_t k : positions()) {
       base(0); set_val(t, target);
